@@ -50,6 +50,12 @@ CHECKS["C05"] = dict(
   text="Design check: every template of depth <= 3 with a variable x every type assignment x base-path length x every dispatched request - the extractors recover exactly the segment at each variable position and fail iff one is empty or outside its type. Conformance: TLC-enumerated template sets with seeded variable types (incl. $ref) under 9 base-path forms; each variable position is filled with every lexeme of its type, requests go through API.ServeHTTP, and for the operation that ran TLC validates the typed values / the named failing path parameter.",
   note="Only dispatched requests are judged (routing itself is C03). The expected segment is computed from the operation that ran and the request path beneath the normalised base. Lexical spaces are defined by strconv / time.Parse. TLC and the reflective driver are trusted.")
 
+CHECKS["C01"] = dict(
+  level="exploration", design="§4 C01, §12, spec/Dialect.tla, spec/Trace_Gen.tla",
+  technique="TLC enumerates the feature matrix of the dialect (MC_Dialect); every cell generated by the real generator; go/parser + gofmt + go/types observe the output; the result protocol and known-finding selectors are TLA+ (Trace_Gen, Dialect.KFCell)",
+  text="All 3304 well-formed cells of schema kind (28) x position (14) x required x nullable x ref form are generated with client on and, in rotation, with the other flag sets and 9 base-path forms, plus name-shape (18 names x 8 sites), free-text-shape (11 texts x 9 sites) and configuration specs; each output is parsed, gofmt-checked and type-checked against the standard library; TLC applies the protocol 'success => well-formed output, error => message, never a swallowed goimports error'. Go's static semantics are observed, not modelled (exploration).",
+  note="go/types with the source importer stands for 'compiles'. Ten open root causes are listed in known_findings.txt with TLA+ selectors on the abstract cell; three were repaired. Custom Go types and custom Maybe/Nullable are outside the dialect.")
+
 NOT_YET = {}
 
 def main():
